@@ -39,6 +39,12 @@ CHECKS = {
         text="Instances: every block (length<=3) of every corpus procedure (including near-miss targets: transposed, strided, reversed, offset, column access for a stride-1 callee, size-1 fill for a callee asserting n>1, edge index) x every corpus sub-procedure and a pool of x86 instructions. Whenever unification succeeds, z3 decides for all inputs within bounds that the call has exactly the effect of the replaced statements, that the inferred arguments satisfy the callee's signature and assertions, and that inlining gives back an equivalent program.",
         note="Callees outside the pool are not covered. Same bounds/trusted base as C01.",
         design="5/C05"),
+    "C06": dict(
+        category=OT, engine="crosshair+z3",
+        technique="L1: CrossHair symbolic execution (z3) of the real internal_cursors.py edit+forwarding code on a mock tree with symbolic sizes, edit locations and cursor positions; L2: exhaustive forwarding of every statement/block/gap cursor of every sweep instance through the real composed forwarding closures",
+        text="L1 decides, for insert / delete / replace / wrap / move at arbitrary positions (top-level or nested) and arbitrary observed node or block cursors, that the forwarded cursor is invalid or denotes the statement(s) with the same labels. L2 covers the compositions inside each primitive: every cursor of every accepted instance (and depth-2 chains) is forwarded and compared by statement kind and source tag; un-forwarded cursors passed to a second operation must give the same result as explicitly forwarded ones.",
+        note="'other': L1 is per-path symbolic execution under a time budget on trees of bounded size (top level <= 3 quick / 5 thorough, one nested body/orelse); L2 has a finite domain per instance (solver only used by CrossHair in L1). Expression cursors are outside.",
+        design="5/C06"),
     "C07": dict(
         category=TV, engine="loopsym",
         technique="snapshot/re-encode equivalence: the z3 encoding and structural fingerprint of every live procedure taken before each (accepted or rejected) scheduling call is compared with a re-encoding after it",
@@ -87,6 +93,12 @@ CHECKS = {
         text="Every x86 instruction (AVX2 and AVX-512) is called once from a wrapper whose DRAM operands are window arguments (symbolic base offset), register operands are AVX2/AVX512 allocations loaded/stored with the library's plain load/store instructions, and size/mask operands range over everything the instruction's assertions allow; z3 decides for all operand lanes that the C fragment has exactly the effect of the Exo body. A C fragment that does not compile is a violation.",
         note="Exhaustive in the control arguments (lane counts 4/8/16 and asserted ranges). Not judged and listed in evidence: integer-data arithmetic (avx2_ui16_divide_by_3, mm256_add_epi16, si256 load/store), prefetch. Intrinsic models are hand-written (trusted base).",
         design="5/C14"),
+    "C16": dict(
+        category=OT, engine="crosshair+z3",
+        technique="CrossHair symbolic execution (z3) of the real internal_cursors.py and API_cursors.py navigation code with symbolic positions/distances; concrete '#n' / order checks of find() against its own many=True result on every corpus procedure",
+        text="Navigation laws (next/prev inverse and InvalidCursor at edges, parent/child, before/after/anchor and gap adjacency, block indexing incl. negative indices, slicing composition, expand clamping) are confirmed over all paths on a mock tree (internal API) and on a real corpus procedure (public API). find(): '#n' returns exactly element n of the many=True result, one past the end raises, results are duplicate-free and in program order.",
+        note="Not claimed: that the match set equals what an independent matcher finds for arbitrary pattern strings (purely syntactic; would be differential testing).",
+        design="5/C16"),
     "C17": dict(
         category=TV, engine="loopsym",
         technique="print -> real @proc parse -> alpha-equivalence walk + z3 equivalence query (loopsym) between the procedure and its re-parsed text",
@@ -106,7 +118,7 @@ NOT_APPLICABLE = [
     ("C18", "Quantifies over CPython hash seeds and process histories; encoding it needs a model of the interpreter's dict/set implementation, not of Exo (DESIGN 6)."),
 ]
 
-PENDING = {p: 'check under construction in this round (design in DESIGN.md section 5); not claimed until its command exists' for p in ['C06','C16']}
+PENDING = {}
 
 
 def main():
